@@ -210,6 +210,8 @@ def _assign(w, deck, a):
         w.stats.hit("c04_reassign_same")
     try:
         if level in ("frame", "shape"):
+            for hk_ in [k for k in deck.handles if k[0] == "c04p" and k[1:1 + len(key)] == tuple(key)]:
+                del deck.handles[hk_]       # frame-level assignment replaces the paragraphs
             if level == "shape" and holder is not None:
                 holder.text = text          # Shape.text / _Cell.text delegate to the frame
             else:
@@ -229,6 +231,17 @@ def _assign(w, deck, a):
             ps = tf.paragraphs
             i = a["para"] % len(ps)
             p = ps[i]
+            if a.get("held"):
+                # a _Paragraph proxy kept from an earlier operation (valid as long as the frame was not re-assigned,
+                # which replaces the paragraph elements: the harness forgets the handles of that frame then)
+                pk = ("c04p",) + tuple(key) + (i,)
+                if pk in deck.handles:
+                    p = deck.handles[pk]
+                    _ = [x.text for x in p.runs]   # the caller looked at the runs before ...
+                    w.stats.hit("c04_held_paragraph_used")
+                else:
+                    deck.handles[pk] = p
+                    _ = [x.text for x in p.runs]
             props = _pprops(p)
             p.text = text
             ps2 = tf.paragraphs
@@ -251,7 +264,12 @@ def _assign(w, deck, a):
             if not cands:
                 raise O.Skip("no runs")
             i, j = cands[(a["para"] * 4 + a["run"]) % len(cands)]
-            rn = ps[i].runs[j]
+            hp = deck.handles.get(("c04p",) + tuple(key) + (i,)) if a.get("held") else None
+            if hp is not None and j < len(hp.runs):
+                rn = hp.runs[j]             # ... and reaches the run through the kept paragraph
+                w.stats.hit("c04_held_paragraph_used")
+            else:
+                rn = ps[i].runs[j]
             pre_runs = [x.text for x in ps[i].runs]
             rn.text = text
             got = tf.paragraphs[i].runs[j].text
@@ -306,6 +324,10 @@ class TextOracle(Oracle):
             return
         o = O.OPS.get(op)
         if o is not None and o.family in ("text", "tables", "media", "charts", "slides") and outcome == "ok":
+            d_ = w.deck(ev.get("deck", 0))
+            if d_ is not None:
+                for hk_ in [k for k in d_.handles if k[0] == "c04p"]:
+                    del d_.handles[hk_]
             # trusted text-changing (or shape-replacing) operation: refresh recorded readings of that deck
             deck = w.deck(ev.get("deck", 0))
             if deck is not None and deck.alive:
@@ -384,7 +406,7 @@ def plan(tier):
     return {"runs": 60000, "budget_s": 780, "chunk": 20}
 
 
-TEXT_DECKS = ["default.pptx", "f-txt-text.pptx", "f-txt-text-frame.pptx", "f-txt-font-props.pptx", "f-tbl-cell.pptx",
+TEXT_DECKS = ["default.pptx", "f-ph-unpopulated-placeholders.pptx", "f-txt-text.pptx", "f-txt-text-frame.pptx", "f-txt-font-props.pptx", "f-tbl-cell.pptx",
               "f-sld-notes.pptx", "f-ph-populated-placeholders.pptx", "f-shp-shapes.pptx", "f-txt-paragraph-spacing.pptx",
               "f-prs-notes.pptx", "t-test.pptx"]
 
@@ -451,4 +473,27 @@ def pinned_traces(tier):
             {"op": "c04.assign", "slide": 0, "shape": 0, "target": tgt, "level": "run", "para": 0, "run": 0, "r": 0, "c": 0, "text": "", "same": True},
             {"op": "checkpoint", "sink": "seekable"}, {"op": "restart"}]
         out.append({"property": ID, "seed": "reassign-same-%s" % tgt, "tier": "pinned", "config": {"pinned": True}, "start": [{"deck": "default"}], "events": evs})
+    # run holding a newline, then the PARAGRAPH is assigned its own reading (before any frame-level re-assignment)
+    for tgt in ("sp", "cell"):
+        evs = list(base) + [
+            {"op": "c04.assign", "slide": 0, "shape": 0, "target": tgt, "level": "frame", "para": 0, "run": 0, "r": 0, "c": 0, "text": "seed"},
+            {"op": "c04.assign", "slide": 0, "shape": 0, "target": tgt, "level": "run", "para": 0, "run": 0, "r": 0, "c": 0, "text": "a\nb"},
+            {"op": "c04.assign", "slide": 0, "shape": 0, "target": tgt, "level": "para", "para": 0, "run": 0, "r": 0, "c": 0, "text": "", "same": True},
+            {"op": "checkpoint", "sink": "seekable"}, {"op": "restart"}]
+        out.append({"property": ID, "seed": "run-newline-then-paragraph-same-%s" % tgt, "tier": "pinned", "config": {"pinned": True}, "start": [{"deck": "default"}], "events": evs})
+    # a kept paragraph: runs read, content changed through it, run reached through it again
+    evs = list(base) + [
+        {"op": "c04.assign", "slide": 0, "shape": 0, "target": "sp", "level": "frame", "para": 0, "run": 0, "r": 0, "c": 0, "text": "one\ntwo"},
+        {"op": "c04.assign", "slide": 0, "shape": 0, "target": "sp", "level": "para", "para": 0, "run": 0, "r": 0, "c": 0, "text": "first", "held": True},
+        {"op": "c04.assign", "slide": 0, "shape": 0, "target": "sp", "level": "para", "para": 0, "run": 0, "r": 0, "c": 0, "text": "changed\vtwice", "held": True},
+        {"op": "c04.assign", "slide": 0, "shape": 0, "target": "sp", "level": "run", "para": 0, "run": 0, "r": 0, "c": 0, "text": "through-kept-paragraph", "held": True},
+        {"op": "c04.assign", "slide": 0, "shape": 0, "target": "sp", "level": "run", "para": 0, "run": 1, "r": 0, "c": 0, "text": "second run", "held": True},
+        {"op": "checkpoint", "sink": "seekable"}, {"op": "restart"}]
+    out.append({"property": ID, "seed": "kept-paragraph-handle", "tier": "pinned", "config": {"pinned": True}, "start": [{"deck": "default"}], "events": evs})
+    # several placeholders that have no text body yet (picture placeholders), on two slides
+    evs = [{"op": "add_slide", "layout": 8}, {"op": "add_slide", "layout": 8}]
+    for k, (sl_, sh_) in enumerate(((0, 0), (1, 0), (0, 1), (1, 1), (0, 2), (1, 2))):
+        evs.append({"op": "c04.assign", "slide": sl_, "shape": sh_, "target": "ph", "level": "frame", "para": 0, "run": 0, "r": 0, "c": 0, "text": "deck text %d" % k})
+    evs += [{"op": "checkpoint", "sink": "seekable"}, {"op": "restart"}]
+    out.append({"property": ID, "seed": "placeholders-without-text-body", "tier": "pinned", "config": {"pinned": True}, "start": [{"deck": "default"}], "events": evs})
     return out
